@@ -28,11 +28,19 @@ fn main() {
     let out = std::io::stdout();
     let mut out = std::io::BufWriter::new(out.lock());
     let mut stats: std::collections::BTreeMap<String, u64> = Default::default();
+    // A task that never yields (e.g. a serve loop spinning on the same receive error) keeps the single-threaded
+    // runtime busy for ever: a real-time watchdog names the case and ends the process (exit code 3).
+    static CURRENT: std::sync::Mutex<String> = std::sync::Mutex::new(String::new());
+    verif_harness::typed::start_watchdog(40, || {
+        eprintln!("LIVELOCK the process made no progress for 40 s of real time while running this case:");
+        eprintln!("{}", CURRENT.lock().unwrap());
+    });
     match args.get(1).map(|s| s.as_str()) {
         Some("run") => {
             for f in &args[2..] {
                 let text = std::fs::read_to_string(f).expect("script file");
                 for case in split_cases(&text) {
+                    *CURRENT.lock().unwrap() = case.join("\n");
                     for l in run_script(&case) {
                         writeln!(out, "{l}").unwrap();
                     }
@@ -46,6 +54,7 @@ fn main() {
             for i in 0..count {
                 let mut r = rng.fork();
                 let script = rtcgens::generate(&g, &mut r, i, &mut stats);
+                *CURRENT.lock().unwrap() = script.join("\n");
                 for l in run_script(&script) {
                     writeln!(out, "{l}").unwrap();
                 }
